@@ -431,17 +431,7 @@ impl FromJson for AnnotationDataSet {
     /// Merges an AnnotationDataSet from a STAM JSON file into the current one
     /// The file must contain a single object which has "@type": "AnnotationDataSet"
     fn merge_json_file(&mut self, filename: &str) -> Result<(), StamError> {
-        debug(self.config(), || {
-            format!("AnnotationStore::from_json_file: filename={:?}", filename)
-        });
-        let reader = open_file_reader(filename, self.config())?;
-        let deserializer = &mut serde_json::Deserializer::from_reader(reader);
-
-        DeserializeAnnotationDataSet::new(self)
-            .deserialize(deserializer)
-            .map_err(|e| StamError::DeserializationError(e.to_string()))?;
-
-        Ok(())
+        self.merge_json_file_nested(filename, 0)
     }
 
     /// Merges an AnnotationDataSet from a STAM JSON string into the current one
@@ -460,7 +450,25 @@ impl FromJson for AnnotationDataSet {
     }
 }
 
+/// Maximum nesting of `@include` inside included annotation data set files (guards against cyclic includes)
+const MAX_INCLUDE_DEPTH: usize = 16;
+
 impl AnnotationDataSet {
+    /// Merges a STAM JSON file into this set, `depth` counts the `@include` statements that led here
+    fn merge_json_file_nested(&mut self, filename: &str, depth: usize) -> Result<(), StamError> {
+        debug(self.config(), || {
+            format!("AnnotationStore::from_json_file: filename={:?}", filename)
+        });
+        let reader = open_file_reader(filename, self.config())?;
+        let deserializer = &mut serde_json::Deserializer::from_reader(reader);
+
+        DeserializeAnnotationDataSet::nested(self, depth)
+            .deserialize(deserializer)
+            .map_err(|e| StamError::DeserializationError(e.to_string()))?;
+
+        Ok(())
+    }
+
     pub fn new(config: Config) -> Self {
         Self {
             id: None,
@@ -839,11 +847,17 @@ impl AnnotationStore {
 #[derive(Debug)]
 pub(crate) struct DeserializeAnnotationDataSet<'a> {
     dataset: &'a mut AnnotationDataSet,
+    /// number of `@include` statements that led to the document being parsed
+    depth: usize,
 }
 
 impl<'a> DeserializeAnnotationDataSet<'a> {
     pub fn new(dataset: &'a mut AnnotationDataSet) -> Self {
-        Self { dataset }
+        Self { dataset, depth: 0 }
+    }
+
+    fn nested(dataset: &'a mut AnnotationDataSet, depth: usize) -> Self {
+        Self { dataset, depth }
     }
 }
 
@@ -858,6 +872,7 @@ impl<'de> DeserializeSeed<'de> for DeserializeAnnotationDataSet<'_> {
     {
         let visitor = AnnotationDataSetVisitor {
             dataset: &mut self.dataset,
+            depth: self.depth,
         };
         deserializer.deserialize_map(visitor)?;
         Ok(())
@@ -866,6 +881,7 @@ impl<'de> DeserializeSeed<'de> for DeserializeAnnotationDataSet<'_> {
 
 struct AnnotationDataSetVisitor<'a> {
     dataset: &'a mut AnnotationDataSet,
+    depth: usize,
 }
 
 impl<'de> serde::de::Visitor<'de> for AnnotationDataSetVisitor<'_> {
@@ -898,8 +914,13 @@ impl<'de> serde::de::Visitor<'de> for AnnotationDataSetVisitor<'_> {
                 }
                 "@include" => {
                     let filename: String = map.next_value()?;
+                    if self.depth >= MAX_INCLUDE_DEPTH {
+                        return Err(<A::Error as serde::de::Error>::custom(format!(
+                            "@include is nested too deeply in AnnotationDataSet (cyclic include of {filename}?)"
+                        )));
+                    }
                     self.dataset
-                        .merge_json_file(filename.as_str())
+                        .merge_json_file_nested(filename.as_str(), self.depth + 1)
                         .map_err(|e| -> A::Error { serde::de::Error::custom(e) })?;
                     if self.dataset.filename.is_none() {
                         self.dataset.filename = Some(filename);
